@@ -6,8 +6,8 @@ import "sort"
 
 // Scratch-copy-only exports for the /verif C32 monitor (never part of tucats/ego).
 
-// VerifRoutes returns the routes of the table sorted by (endpoint, method).
-func (m *Router) VerifRoutes() []*Route {
+// VerifC32Routes returns the routes of the table sorted by (endpoint, method).
+func (m *Router) VerifC32Routes() []*Route {
 	m.mutex.Lock()
 	defer m.mutex.Unlock()
 
@@ -27,8 +27,8 @@ func (m *Router) VerifRoutes() []*Route {
 	return out
 }
 
-// VerifEndpoint returns the endpoint pattern the route was registered with.
-func (r *Route) VerifEndpoint() string {
+// VerifC32Endpoint returns the endpoint pattern the route was registered with.
+func (r *Route) VerifC32Endpoint() string {
 	if r == nil {
 		return ""
 	}
@@ -36,8 +36,8 @@ func (r *Route) VerifEndpoint() string {
 	return r.endpoint
 }
 
-// VerifMethod returns the method the route was registered with ("ANY" for all).
-func (r *Route) VerifMethod() string {
+// VerifC32Method returns the method the route was registered with ("ANY" for all).
+func (r *Route) VerifC32Method() string {
 	if r == nil {
 		return ""
 	}
